@@ -103,7 +103,7 @@ def evaluate(
         pred_time = time.time() - start_pred
 
         # score
-        score = scoring(y_pred, y_test)
+        score = scoring(y_test, y_pred)
 
         # save results
         results = results.append(
